@@ -82,8 +82,8 @@ func (w *wrec) String() string {
 }
 
 type srec struct {
-	toConfig                    bool
-	via                         string
+	toConfig                   bool
+	via                        string
 	call, ret, posCall, posRet int
 }
 
@@ -428,7 +428,12 @@ func scenarios14() []dualrun.Scenario {
 		}},
 		{Name: "roundtrip/1writer", Quick: U, Thorough: U, FreeQuick: 200, FreeThorough: 3000, Body: func(e *dualrun.Env) {
 			h := new14(e, false)
-			e.Go("w1", func() { h.write('P', 1, 1, true); h.write('K', 1, 2, true); h.write('P', 1, 3, true); h.write('P', 1, 4, true) })
+			e.Go("w1", func() {
+				h.write('P', 1, 1, true)
+				h.write('K', 1, 2, true)
+				h.write('P', 1, 3, true)
+				h.write('P', 1, 4, true)
+			})
 			e.Go("st", func() { h.setState("SetState", true); h.setState("SetState", false) })
 			e.AtEnd(h.finish)
 		}},
